@@ -176,11 +176,11 @@ def build_tools():
             if rc != 0: problems.append('modelrun build failed: ' + out[-800:])
         return problems, time.time() - t0
 
-JOB_TIMEOUT = [240]
+JOB_TIMEOUT = [90]
 
 def plan(tier, seed):
     """list of (name, profile, binary, args) trace jobs"""
-    JOB_TIMEOUT[0] = 240 if tier == 'quick' else 2400
+    JOB_TIMEOUT[0] = 90 if tier == 'quick' else 1800
     jobs = []
     for f in sorted(glob.glob(os.path.join(ROOT, 'corpus', '*.trace'))):
         b = os.path.basename(f)[:-6]
